@@ -16,6 +16,11 @@ CLAIMS = {
          "Generated histories over the full writer API and configuration space are checked against a sequential model after every commit / abort / rollback / merge / reopen, including opstamp laws; concurrent producers are checked by per-producer sequential replay and opstamp-range disjointness.",
          "thread interleavings are sampled (steered by the flush-every-N and pause-point hooks), never enumerated; document shapes are small (uid, group, 0-4 words, a number)",
          "DESIGN.md §3 C02"),
+ "C03": ("exploration",
+         "differential testing of generated query trees on generated corpora against a naive evaluator, across collectors and across segmentations (metamorphic re-check after merging)",
+         "Generated corpora (boundary posting-list lengths, several size classes, segmentations, deletes, sorted or not) and generated query trees over every listed query type are evaluated by tantivy through DocSetCollector, Count, Query::count, TopDocs, tuple/Multi collectors and FilterCollector and compared with an independent evaluator over the model documents, again after merging all segments.",
+         "ASCII word text; reference semantics of fuzzy/regex use independent implementations (own edit distance, the regex crate) on a fixed small vocabulary; JSON and facet fields are not generated here",
+         "DESIGN.md §3 C03"),
  "C04": ("translation_validation",
          "per-merge translation validation: canonical dump of the merged segment vs the dumps of its sources on generated indexes (proptest), plus gated merge-thread schedules judged against the sequential model",
          "Every generated merge (choice and order of sources, deletes, stacked or re-compressed stores, sorted or unsorted) is validated as a translation of its inputs: per document stored fields, fast values, field norms, term frequencies and positions, and per term doc_freq; merges held at a generated storage operation while deletes are committed, rollbacks, delete-all and gc run are judged against the sequential model and the no-orphan predicate.",
